@@ -275,7 +275,7 @@ Lemma ensure_writer_spec c s t : cfg_ok c -> GInv c s ->
     unread c (get_ts s1 (t_id t)) = unread c (get_ts s (t_id t)) /\
     cnt (get_ts s1 (t_id t)) = cnt (get_ts s (t_id t)).
 Proof.
-  intros (Hh & Hb0 & Hba & Hbm & Hme) (Hn & Hall). unfold ensure_writer.
+  intros (Hh & Hb0 & Hba & Hbm & Hme & Hhb) (Hn & Hall). unfold ensure_writer.
   destruct (ts_writer (get_ts s (t_id t))) as [w|] eqn:Ew.
   - exists s, w. split; [reflexivity|]. split; [lia|]. split; [exact Hn|]. split; [intros t' _; reflexivity|].
     split; [exact Ew|]. split; [apply TInv_P, Hall|]. auto.
@@ -288,14 +288,27 @@ Proof.
     rewrite get_set_same. split; [reflexivity|]. split; [exact I1|]. split; [exact I2|]. split; [exact I3|reflexivity].
 Qed.
 
+Lemma appendable_ok c t l : cfg_ok c -> name_ok c t = true -> c_hdr c + l <= c_max_alloc c -> appendable c t l = None.
+Proof.
+  intros (Hh & Hb0 & Hba & Hbm & Hme & Hhb) Hn Hl. unfold appendable. rewrite Hn. cbn [negb].
+  replace (c_max_alloc c <? N.min u64_max (c_hdr c + l)) with false by lia. reflexivity.
+Qed.
+
+Lemma max_len_le c es : Forall (fun e => need c e <= c_max_alloc c) es -> 0 < c_hdr c -> c_hdr c <= c_max_alloc c ->
+  c_hdr c + max_len es <= c_max_alloc c.
+Proof.
+  intros H Hh Hm. induction H as [|e es He Hes IH]; cbn [max_len fold_right]; [lia|].
+  fold (max_len es). unfold need in He. lia.
+Qed.
+
 Lemma append_spec c s t e : cfg_ok c -> GInv c s -> name_ok c t = true -> need c e <= c_max_alloc c ->
   cnt (get_ts s (t_id t)) + 1 <= u64_max ->
   exists s', append c s t e = (s', ROk) /\ GInv c s' /\ others_same s s' (t_id t) /\
     stream (get_ts s' (t_id t)) = stream (get_ts s (t_id t)) ++ [e] /\
     unread c (get_ts s' (t_id t)) = unread c (get_ts s (t_id t)) ++ [e].
 Proof.
-  intros Hc Hg Hname Hsize Hcntb. pose proof Hc as (Hh & Hb0 & Hba & Hbm & Hme).
-  unfold append.
+  intros Hc Hg Hname Hsize Hcntb. pose proof Hc as (Hh & Hb0 & Hba & Hbm & Hme & Hhb).
+  unfold append. rewrite (appendable_ok c t (e_len e) Hc Hname Hsize).
   destruct (ensure_writer_spec c s t Hc Hg) as (s1 & w & He & Hle1 & Hn1 & Hoth1 & Hw1 & Hp1 & Hst1 & Hun1 & Hcnt1).
   rewrite He. set (ts := get_ts s1 (t_id t)) in *.
   rewrite (tp_poison _ _ _ Hp1).
@@ -366,7 +379,7 @@ Lemma batch_plan_spec c (Hc : cfg_ok c) t : forall es s cur rot,
     unread c (with_writer (get_ts s' (t_id t)) (Some cur')) = unread c (with_writer (get_ts s (t_id t)) (Some cur)) ++ es /\
     cnt (get_ts s' (t_id t)) = cnt (get_ts s (t_id t)).
 Proof.
-  pose proof Hc as (Hh & Hb0 & Hba & Hbm & Hme).
+  pose proof Hc as (Hh & Hb0 & Hba & Hbm & Hme & Hhb).
   induction es as [|e r IH]; intros s cur rot Hn Hinv Hsz; cbn [batch_plan].
   - exists s, cur, rot. split; [reflexivity|]. split; [lia|]. split; [intros t' _; reflexivity|].
     split; [exact Hinv|]. now rewrite !app_nil_r.
@@ -424,8 +437,8 @@ Lemma batch_spec c be s t es : cfg_ok c -> GInv c s -> batch_ok c t es ->
      (r = RErr EInvalidInput /\ stream (get_ts s' (t_id t)) = stream (get_ts s (t_id t)) /\
       unread c (get_ts s' (t_id t)) = unread c (get_ts s (t_id t)))).
 Proof.
-  intros Hc Hg (Hname & Hsz) Hcntb. pose proof Hc as (Hh & Hb0 & Hba & Hbm & Hme).
-  unfold batch.
+  intros Hc Hg (Hname & Hsz) Hcntb. pose proof Hc as (Hh & Hb0 & Hba & Hbm & Hme & Hhb).
+  unfold batch. rewrite (appendable_ok c t (max_len es) Hc Hname (max_len_le c es Hsz Hh ltac:(lia))).
   destruct (ensure_writer_spec c s t Hc Hg) as (s1 & w & He & Hle1 & Hn1 & Hoth1 & Hw1 & Hp1 & Hst1 & Hun1 & Hcnt1).
   rewrite He.
   assert (Hg1 : GInv c s1).
